@@ -188,7 +188,13 @@ func c14ItemNode(name string) *xNode {
 	case 6:
 		// union with a plain field / unknown member / bad member field by choice
 		var subs []*xNode
-		switch nondet.Choice(name+".u", 6) {
+		switch nondet.Choice(name+".u", 9) {
+		case 6: // sub-selection on the union's own __typename, no member fragment
+			subs = []*xNode{xF("__typename", xF("c"))}
+		case 7: // the same next to a fragment on a type outside the union
+			subs = []*xNode{xF("__typename", xF("c")), xOn("Sub", xF("c"))}
+		case 8: // and next to a member fragment
+			subs = []*xNode{xF("__typename", xF("c")), xOn("A", xF("x"))}
 		case 0:
 			subs = []*xNode{xOn("A", xF("x")), xOn("B", xF("y"))}
 		case 1:
